@@ -54,7 +54,8 @@ def values(delim, typ):
             '': [('a', 'a'), ('{ab}', 'ab'), ('{a{b}c}', 'abc'), (' {p{}q}', 'pq')],
             'str': [('{ab}', 'ab'), ('{a{b}c}', 'abc')],
             'int': [('{42}', 42), ('{-7}', -7), ('{"1F}', 31)],
-            'float': [('{1.5}', 1.5), ('{-2}', -2.0), ('{-.5}', -0.5), ('{--,25}', 0.25)],
+            'float': [('{1.5}', 1.5), ('{-2}', -2.0), ('{-.5}', -0.5), ('{--,25}', 0.25), ('{-"1F}', -31.0), ("{+-'17}", -15.0),
+                      ('{---`a}', -97.0)],
             'dimen': [('{2pt}', Fraction(2 * PT)), ('{1in}', Fraction(7227, 100) * PT)],
             'list': [('{a,b}', ['a', 'b']), ('{a,{b,c},d}', ['a', 'b,c', 'd'])],
             'list(;)': [('{a;b}', ['a', 'b']), ('{a,b;{c;d}}', ['a,b', 'c;d'])],
@@ -70,11 +71,13 @@ def values(delim, typ):
         }
         return m[typ]
     o, c = delim[0], delim[1]
+    # the control symbol spelled like the opening delimiter (\[ \( : a formula inside the argument) is not a delimiter
+    sym = [('a\\%sx\\%sc' % (o, c), 'axc')] if o in '[(' else []
     m = {
-        '': [('ab', 'ab'), ('a%sb%sc' % (o, c), 'a%sb%sc' % (o, c)), ('a{%s}b' % c, 'a%sb' % c), ('{%s}' % o, o)],
+        '': [('ab', 'ab'), ('a%sb%sc' % (o, c), 'a%sb%sc' % (o, c)), ('a{%s}b' % c, 'a%sb' % c), ('{%s}' % o, o)] + sym,
         'str': [('ab', 'ab'), ('a%sb%sc' % (o, c), 'a%sb%sc' % (o, c))],
         'int': [('42', 42), ('-7', -7)],
-        'float': [('1.5', 1.5), ('-.5', -0.5)],
+        'float': [('1.5', 1.5), ('-.5', -0.5), ('-"A', -10.0)],
         'dimen': [('2pt', Fraction(2 * PT))],
         'list': [('a,b', ['a', 'b']), ('a,{b%s},c' % c, ['a', 'b' + c, 'c'])],
         'list(;)': [('a;b', ['a', 'b'])],
@@ -202,7 +205,8 @@ def matches(exp, obs, typ):
     if typ == 'dict:int':
         return isinstance(obs, dict) and obs == exp and all(type(o) is int for o in obs.values())
     if typ == 'float':
-        return isinstance(obs, float) and obs == exp
+        # the statement speaks of the value: a non-decimal literal ("A, '17, `a) comes back as an integer object
+        return isinstance(obs, (int, float)) and not isinstance(obs, bool) and obs == exp
     if typ == 'int':
         return isinstance(obs, int) and not isinstance(obs, bool) and obs == exp
     return obs == exp
@@ -251,7 +255,8 @@ def judge_sig(star, args, call, exp):
         problems.append('attribute names %r != %r' % (sorted(attrs), sorted(exp)))
     if text != TAIL:
         problems.append('tail %r != %r' % (text, TAIL))
-    if ''.join(argsrc.split()) != ''.join(call.split()):
+    norm = lambda x: ''.join(x.split()).replace('\\(', '$').replace('\\)', '$')     # \(..\) is written back as $..$
+    if norm(argsrc) != norm(call):
         problems.append('argSource %r != call %r' % (argsrc, call))
     if lvl != 0:
         problems.append('ParameterCommand._enablelevel = %d after the call' % lvl)
